@@ -165,6 +165,9 @@ def qZ (p1 : α) : α :=
   y + ((((y * qa4 + qa3) * y + qa2) * y + qa1) * y + qa0) /
       ((((y * qb4 + qb3) * y + qb2) * y + qb1) * y + qb0)
 
+/-- `qNorm` returns its error value -9999 (decision table of `guards_total_qNorm`) -/
+def qNormSentinel (p : α) : Bool := ltb (qP1 p) qEps
+
 /-- `RandomTools::qNorm(double prob)`, RandomTools.cpp:122-136 -/
 def qNorm (p : α) : α :=
   let p1 := qP1 p
